@@ -67,6 +67,8 @@ def gen_history(d, qcap, flags, lines=True, holds=True, long_history=True, line_
                     # (lists: a run handler may ask for the command list - some entries, e.g. of a long-named event command, do not fit)
                     ck = codes + ([S.LIST, S.LIST] if (lists and k == "n") else [])
                     c["scripts"]["0" + k] = [S.mk_step(d.pick(ck), d.below(3) if k == "r" else 0, d.pick(line_tags or G.TAGS[:5])) for _ in range(d.rng(1, 3))]
+            if c["vars"] and d.unlikely(1, 4):
+                c["need_all"] = 1
             lcs.append(c)
     for c in evs:
         if d.unlikely(1, 6):
@@ -109,7 +111,7 @@ def gen_history(d, qcap, flags, lines=True, holds=True, long_history=True, line_
         for _ in range(d.rng(1, 3)):
             c = d.pick(lcs)
             form = d.pick([k for k in c["h"]])
-            ln = b"AT" + c["name"] + {"w": b"=" + G.g_args(d, c, True), "r": b"?", "n": b""}[form]
+            ln = b"AT" + c["name"] + {"w": b"=" + (b"" if d.unlikely(1, 6) else G.g_args(d, c, True)), "r": b"?", "n": b""}[form]
             if form == "w" and d.unlikely(1, 5):
                 ln += bytes(d.pick([0, 0, 1, 8, 9, 127, 200, 255, 32]) for _ in range(d.rng(1, 4))) + d.pick([b"", b"1", b"x,y"])
             inp += ln.replace(b"\n", b".").replace(b"\r", b".") + (b"\r\n" if d.below(3) == 0 else b"\n")
